@@ -55,11 +55,12 @@ def nlookup {α : Type} (k : Nat) : List (Nat × α) → Option α
 def ninsert {α : Type} (k : Nat) (v : α) (l : List (Nat × α)) : List (Nat × α) :=
   (l.filter fun kv => kv.1 != k) ++ [(k, v)]
 
+def elookup (k : Path) : List (Path × Ent) → Option Ent
+  | [] => none
+  | (k', v) :: r => if k' = k then some v else elookup k r
+
 def entAt (sp : Live) (p : Path) : Option Ent :=
-  if p = [] then some (.dir 0)
-  else match sp.ents.find? (fun kv => kv.1 == p) with
-    | some kv => some kv.2
-    | none => none
+  if p = [] then some (.dir 0) else elookup p sp.ents
 
 def isDirAt (sp : Live) (p : Path) : Bool :=
   match entAt sp p with
